@@ -7,7 +7,7 @@ CHECK = {
     "quick": {"shards": 8, "timeout": 900},
     "thorough": {"shards": 16, "timeout": 3600},
     "required_categories": ["float", "double", "method_cholesky", "method_svd", "method_weighted", "precond_general", "precond_graded_nearly_diagonal",
-                            "precond_diagonal", "history_with_shrink", "problem_written_through_kept_references", "history_with_growth", "estimate_size_1", "estimate_size_8"],
+                            "precond_diagonal", "history_with_shrink", "problem_written_through_kept_references", "problem_at_exact_buffer_capacity", "history_with_growth", "estimate_size_1", "estimate_size_8"],
     "required_oracles": ["normal_equations.cholesky", "normal_equations.svd", "normal_equations.weighted", "agrees_with_qr",
                          "affine_preconditioner_applied", "affine_preconditioner_applied.componentwise", "cholesky_svd_agree", "history_independent"],
     "required_counters": ["problems_checked"],
